@@ -35,7 +35,7 @@ def scenarios_c11(quick, seed):
     for j in range(n):
         outs = [["val"], ["err"], ["nf"], ["val", "err"], ["val", "nf", "err"]][j % 5]
         out.append({"getters": j % 3, "bulk": (j // 3) % 2 if j % 4 == 0 else 0, "refreshers": 1 + (j // 2) % 3, "writers": [] if j % 4 else [["set"], ["invalidate"], ["compute"]][(j // 4) % 3],
-                    "preload": 1, "outcomes": outs, "policy": "random" if j % 2 else "pct", "seed": seed * 100000 + 50000 + j, "script": [], "refresh": 1, "bulkkeys": 2, "hgate": 0})
+                    "preload": 1, "outcomes": outs, "policy": "random" if j % 2 else "pct", "seed": seed * 100000 + 50000 + j, "script": [], "refresh": 1, "bulkkeys": 2, "hgate": 0, "bulkref": 0, "inloader": []})
     return out
 
 
@@ -54,7 +54,7 @@ def scenarios(prop, quick, seed):
             outs = outs + ["panic"]
         sc = {"getters": 1 + j % 3, "bulk": (j // 3) % 2, "refreshers": refreshers, "writers": kinds[j % len(kinds)],
               "preload": (j // 4) % 2 if refresh else 0, "outcomes": outs, "policy": "random" if j % 2 else "pct",
-              "seed": seed * 100000 + j, "script": [], "refresh": refresh, "bulkkeys": 2, "hgate": 0}
+              "seed": seed * 100000 + j, "script": [], "refresh": refresh, "bulkkeys": 2, "hgate": 0, "bulkref": 0, "inloader": []}
         fam = j % 8
         if fam in (1, 5):      # waiters joined to a failing / not-found / panicking bulk or single load
             sc.update(getters=2 + j % 2, bulk=1 if fam == 1 else 0, refreshers=0, refresh=0, preload=0, writers=[],
@@ -68,6 +68,12 @@ def scenarios(prop, quick, seed):
         elif fam == 7:         # BulkGet callers whose missing keys are all in flight elsewhere (they must wait for the joined loads)
             sc.update(getters=1 + j % 2, bulk=2, bulkkeys=1 + (j // 8) % 2, refreshers=0, refresh=0, preload=0, writers=[],
                       outcomes=[["val"], ["val", "nf"], ["val", "err"]][(j // 16) % 3])
+        if fam == 0 and (j // 8) % 2 == 0:
+            # the write happens inside the loader itself (user code): a whole call between the start of the load and its installation
+            sc.update(getters=1 + (j // 16) % 2, bulk=0, refreshers=(j // 32) % 2, refresh=(j // 32) % 2, preload=(j // 32) % 2, writers=[], outcomes=["val"],
+                      inloader=[["set"], ["invalidate"], ["compute"], ["computeinv"], ["invalidateAll"], ["set", "invalidate"]][(j // 16) % 6])
+        if fam == 2 and refresh and (j // 8) % 2:
+            sc.update(bulkref=1 + (j // 16) % 2)
         if fam == 4 and (j // 8) % 4 == 0 and prop == "C09":
             # F17 (open finding): the schedule TLC found on LoadRace.tla (NoWindowInstall) - a reload registered while an
             # invalidation of the key is between clearing the in-flight record and publishing the removal; the user's
